@@ -188,6 +188,9 @@ def run(out):
              ('css-simulated', 'css', dict(constants={'Alphabet': CSS_ALPHA, 'MaxLen': 12}, simulate=3 if quick else 40, depth=12, seed=out.seed + 1))]
     insts += [('html-fragments', 'html', dict(module='Fragments', constants={'Frags': FRAG_H, 'MaxFrag': 3 if quick else 4})),
               ('css-fragments', 'css', dict(module='Fragments', constants={'Frags': FRAG_S, 'MaxFrag': 3 if quick else 4}))]
+    if not quick:
+        # every sequence of up to three fragments is kept whole; of the 450 000 sequences of four a sample is taken below
+        insts.append(('html-fragments-3', 'html', dict(module='Fragments', constants={'Frags': FRAG_H, 'MaxFrag': 3})))
     work = []
     from concurrent.futures import ThreadPoolExecutor
 
@@ -202,7 +205,7 @@ def run(out):
         if r.mode == 'simulate':
             strings = common.sample(strings, 1500 if quick else 20000, out.seed, key=str)
         elif quick and name == 'html-fragments':
-            # quick tier: all sequences of one and two fragments, a deterministic sample of those of three
+            # quick tier: every generated source of at most 12 characters (the sequences of one fragment and of two short ones), a deterministic sample of the longer ones
             short = [x for x in strings if len(x) <= 12]
             strings = sorted(set(short) | set(common.sample([x for x in strings if len(x) > 12], 700, out.seed, key=str)))
         if r.mode == 'bfs':
@@ -223,9 +226,8 @@ def run(out):
     ntraces = ncalls = 0
     for name, lang, strings in work:
         if not quick and len(strings) > 150000:
-            # thorough tier: every sequence of up to three fragments, a deterministic sample of those of four
-            short = [x for x in strings if len(x) <= 12]
-            strings = sorted(set(short) | set(common.sample([x for x in strings if len(x) > 12], 100000, out.seed, key=str)))
+            # thorough tier, sequences of four fragments: a deterministic sample of 100 000 (those of up to three are the instance html-fragments-3)
+            strings = sorted(common.sample(strings, 100000, out.seed, key=str))
         items = []
         for s in strings:
             tid += 1
